@@ -300,14 +300,24 @@ class Verdict:
 
     def mismatch(self, case, tags=(), paths=()):
         """case: JSON-able description.  tags: deviation tags the *specification* assigns to the
-        abstract case.  paths: differing result paths.  Attributed to a finding iff one of its
-        tags is in `tags` and every differing path matches one of its diff patterns."""
-        for f in self.findings:
-            if set(f["tags"]) & set(tags):
-                pats = f.get("diff", ["*"])
-                if all(any(_path_match(pt, p) for pt in pats) for p in paths) or not paths:
-                    self.hits[f["id"]] = self.hits.get(f["id"], 0) + 1
-                    return f["id"]
+        abstract case.  paths: differing result paths.  Attributed iff EVERY differing path matches a diff
+        pattern of some listed finding one of whose tags the specification assigns to this case."""
+        live = [f for f in self.findings if set(f["tags"]) & set(tags)]
+        if live:
+            used = set()
+            ok = True
+            for p in paths:
+                fs = [f for f in live if any(_path_match(pt, p) for pt in f.get("diff", ["*"]))]
+                if not fs:
+                    ok = False
+                    break
+                used.add(fs[0]["id"])
+            if ok:
+                if not paths:
+                    used.add(live[0]["id"])
+                for fid in used:
+                    self.hits[fid] = self.hits.get(fid, 0) + 1
+                return sorted(used)[0]
         self.viol.append(case)
         k = "|".join(sorted(tags)) + " :: " + ",".join(sorted(set(paths))[:4])
         if k not in self.cats:
